@@ -5,14 +5,169 @@
 -/
 import ModVerif.Model.Modfile.Work
 import ModVerif.Proofs.ModfileWitness
+import ModVerif.Proofs.ModfileLex
+import ModVerif.Proofs.ModfileParse
+import ModVerif.Proofs.ModfileRule
+import ModVerif.Proofs.ModfilePos
 namespace ModVerif.Props.C20
 open ModVerif ModVerif.Modfile
+
+/-! ### total: a result or an error list, never anything else -/
+
+/-- The syntax-only parser returns a tree or one positioned error (the model is a total function, so
+    "never panics, never hangs" is by construction: all recursion is structural on explicit fuel). -/
+theorem parse_total (name data : Bytes) :
+    (∃ t, parse name data = .ok t) ∨ (∃ e, parse name data = .error e) := by
+  cases h : parse name data with
+  | ok t => exact Or.inl ⟨t, rfl⟩
+  | error e => exact Or.inr ⟨e, rfl⟩
+
+/-- Parse / ParseLax return a file or a NON-EMPTY error list. -/
+theorem parseToFile_total (name data : Bytes) (fix : Option Fixer) (strict : Bool) :
+    (∃ f, parseToFile name data fix strict = .ok f) ∨
+    (∃ es, parseToFile name data fix strict = .error es ∧ es ≠ []) := by
+  unfold parseToFile
+  split
+  · exact Or.inr ⟨_, rfl, by simp⟩
+  · simp only
+    split
+    · exact Or.inl ⟨_, rfl⟩
+    · rename_i h
+      refine Or.inr ⟨_, rfl, ?_⟩
+      intro hr
+      apply h
+      have := congrArg List.reverse hr
+      simp only [List.reverse_reverse, List.reverse_nil] at this
+      rw [this]; rfl
+
+/-- ParseWork returns a file or a NON-EMPTY error list. -/
+theorem parseWork_total (name data : Bytes) (fix : Option Fixer) :
+    (∃ f, parseWork name data fix = .ok f) ∨
+    (∃ es, parseWork name data fix = .error es ∧ es ≠ []) := by
+  unfold parseWork
+  split
+  · exact Or.inr ⟨_, rfl, by simp⟩
+  · simp only
+    split
+    · exact Or.inl ⟨_, rfl⟩
+    · rename_i h
+      refine Or.inr ⟨_, rfl, ?_⟩
+      intro hr
+      apply h
+      have := congrArg List.reverse hr
+      simp only [List.reverse_reverse, List.reverse_nil] at this
+      rw [this]; rfl
+
+/-! ### no internal error -/
+
+/-- No input makes the syntax-only parser report an internal error: "internal lexer error: readRune at
+    EOF", "internal parse error: parseLine at end of line" and the model's out-of-fuel marker (the
+    counterpart of a hang) are unreachable, for every byte string. -/
+theorem parse_no_internal_error (name data : Bytes) (e : SynErr) (h : parse name data = .error e) :
+    ∀ t, e.kind ≠ .internal t :=
+  Proofs.ModfileParse.parse_noInternal name data e h
+
+/-- The lexer alone: whatever state it is called in, `readToken` reports no internal error, never
+    reads past the end of the input, and every token other than EOF consumes at least one byte. -/
+theorem readToken_no_internal_error (i : Input) :
+    (∃ i', readToken i = .ok i' ∧ i'.remaining.length ≤ i.remaining.length ∧
+        (i'.token.kind ≠ .eof → i'.remaining.length < i.remaining.length)) ∨
+    (∃ e, readToken i = .error e ∧ ∀ t, e.kind ≠ .internal t) := by
+  rcases Proofs.ModfileLex.readToken_spec i with ⟨i', h, h1, h2, _⟩ | ⟨e, h, hn⟩
+  · exact Or.inl ⟨i', h, h1, h2⟩
+  · exact Or.inr ⟨e, h, hn⟩
+
+/-- When the syntax layer fails, Parse, ParseLax (any fixer) report exactly that one positioned error,
+    and it is not an internal error. -/
+theorem parseToFile_syntax_error (name data : Bytes) (fix : Option Fixer) (strict : Bool) (e : SynErr)
+    (h : parse name data = .error e) :
+    parseToFile name data fix strict = .error [⟨e.pos, .syn e.kind⟩] ∧ ∀ t, e.kind ≠ .internal t := by
+  refine ⟨?_, parse_no_internal_error name data e h⟩
+  unfold parseToFile
+  simp [h]
+
+/-! ### positions -/
+
+/-- `pos_consistent`, the part proved so far: byte offsets of tokens.  In every lexer state the parser
+    can be in (`Reach`: prime with `readToken`, then `readToken` again and again; the parser otherwise
+    only bumps its line counter), the pending token's text — for comments: without the trailing
+    newline — is found in the input at `token.pos.byte`, the token ends at `token.endPos.byte`, which
+    is the lexer's current offset (the `Pos` of any error reported next), that offset is inside the
+    input and the rest of the input starts there.  Missing (lean/PENDING.md): the `Line`/`LineRune`
+    components, and the lifting to the positions stored in the tree, which the parser copies from
+    these tokens. -/
+theorem pos_consistent_tokens_partial (data : Bytes) (i : Input) (h : Proofs.ModfilePos.Reach data i) :
+    i.token.text <+: data.drop i.token.pos.byte ∧
+    i.token.endPos.byte = i.pos.byte ∧
+    i.token.pos.byte + i.tokRev.length = i.token.endPos.byte ∧
+    data.drop i.pos.byte = i.remaining ∧ i.pos.byte ≤ data.length :=
+  Proofs.ModfilePos.tokOK_spec (Proofs.ModfilePos.reach_tokOK h)
+
+/-- Non-vacuity: the states reached while lexing `module  x // c` are `Reach`able, and the second
+    token `x` is reported at byte 8. -/
+example :
+    let data := B "module  x // c\n"
+    (match readToken (newInput data) with
+     | .ok i1 => (match readToken i1 with
+                  | .ok i2 => decide (i2.token.text = B "x" ∧ i2.token.pos = ⟨1, 9, 8⟩ ∧ i2.token.endPos = ⟨1, 10, 9⟩)
+                  | .error _ => false)
+     | .error _ => false) = true := by decide +kernel
+
+/-! ### lax ⊇ strict, piecewise -/
+
+/-- Strict and lax mode fail identically on syntax errors (same error, same position). -/
+theorem lax_eq_strict_on_syntax_error (name data : Bytes) (fix : Option Fixer) (e : SynErr)
+    (h : parse name data = .error e) :
+    parseToFile name data fix false = parseToFile name data fix true := by
+  rw [(parseToFile_syntax_error name data fix false e h).1, (parseToFile_syntax_error name data fix true e h).1]
+
+/-- The step of `lax_superset`: on a go / module / retract / require line that the strict directive
+    layer accepts (it adds no error), the lax directive layer computes the same typed entries and the
+    same rewritten tokens. -/
+theorem lax_superset_line (st : AddState) (block : Option Comments) (line : Line) (verb : Bytes)
+    (args : List Bytes) (fix : Option Fixer) (hv : verbIn verb laxVerbs = true)
+    (hok : (File.add st block line verb args fix true).1.errsRev = st.errsRev) :
+    File.add st block line verb args fix false = File.add st block line verb args fix true :=
+  Proofs.ModfileRule.add_strict_ok_lax st block line verb args fix hv hok
+
+/-- `lax_ignores_unknown`, line form: in lax mode a line whose verb is not go / module / retract /
+    require changes neither the typed file, nor the error list, nor its own tokens. -/
+theorem lax_ignores_unknown_line (st : AddState) (block : Option Comments) (line : Line) (verb : Bytes)
+    (args : List Bytes) (fix : Option Fixer) (h : verbIn verb laxVerbs = false) :
+    File.add st block line verb args fix false = (st, args) :=
+  Proofs.ModfileRule.add_lax_ignores st block line verb args fix h
+
+/-- `lax_ignores_unknown`, block form: in lax mode a block whose header is not a single known block
+    verb is skipped without an error (whatever its lines contain). -/
+theorem lax_ignores_unknown_block (st : AddState) (b : LineBlock) (fix : Option Fixer) (rest : List Expr)
+    (h : ∀ verb, b.token = [verb] → verbIn verb blockVerbs = false) :
+    addStmts fix false st (.lineBlock b :: rest) =
+      ((addStmts fix false st rest).1, .lineBlock b :: (addStmts fix false st rest).2) := by
+  simp only [addStmts]
+  split
+  · rename_i verb hv
+    simp [h verb hv]
+  · rfl
+
+/-- Non-vacuity of `lax_ignores_unknown_*`: a file with an unknown directive and an unknown block is
+    rejected by the strict parser and accepted by the lax parser with the module / go / require of
+    the same file without them. -/
+example :
+    let x := B "module example.com/m\ngo 1.21\nfrobnicate a b\nfuture (\n\tx y\n)\nrequire a.b/c v1.0.0\n"
+    let y := B "module example.com/m\ngo 1.21\nrequire a.b/c v1.0.0\n"
+    (parseToFile (B "go.mod") x none true).toOption.isNone = true ∧
+    (match parseToFile (B "go.mod") x none false, parseToFile (B "go.mod") y none true with
+     | .ok f, .ok g => decide (f.module.map (·.mod) = g.module.map (·.mod) ∧ f.go.map (·.version) = g.go.map (·.version) ∧
+                                f.require.map (·.mod) = g.require.map (·.mod))
+     | _, _ => false) = true := by decide +kernel
+
+/-! ### ModulePath -/
 
 /-- The F8 input: a `require` block containing a line whose first token is `module`, before the real
     module directive. -/
 def f8Input : Bytes := B "require (\n\tmodule v1.0.0\n)\nmodule example.com/m\n"
 
-/-- The last clause of C20 is FALSE on the current tree (finding F8, signature
+/-- The last clause of C20 is FALSE on the current tree (finding F8, oracle signature
     `modulepath-block-line`): the strict parser accepts `f8Input`, its module directive is the single
     line `module example.com/m` naming a valid import path, yet the quick module-path extractor
     returns `v1.0.0`. -/
@@ -20,7 +175,14 @@ theorem C20_violated_modulePath_block_line :
     ∃ f m, parseToFile (B "go.mod") f8Input none true = .ok f ∧ f.module = some m ∧
       (f.syn.findLine m.lineId).map (·.inBlock) = some false ∧
       Module.checkImportPath m.mod.path = .ok () ∧
-      modulePath f8Input ≠ m.mod.path := by
-  exact Proofs.ModfileWitness.modulePathDisagrees_spec (by decide +kernel)
+      modulePath f8Input ≠ m.mod.path :=
+  Proofs.ModfileWitness.modulePathDisagrees_spec (by decide +kernel)
+
+/-- Non-vacuity of the agreement clause: on an ordinary file ModulePath and the strict parser agree. -/
+example :
+    let x := B "// doc\nmodule \"example.com/m\" // c\n\ngo 1.21\n"
+    (match parseToFile (B "go.mod") x none true with
+     | .ok f => decide (f.module.map (·.mod.path) = some (modulePath x))
+     | .error _ => false) = true := by decide +kernel
 
 end ModVerif.Props.C20
